@@ -1,5 +1,6 @@
 import Gnmi.Model.ClientRun
 import Driver.Codec
+import Driver.GF
 /-! `rc` component: `client.Reconnect` over `BaseClient`/`CacheClient` with a scripted transport
 (model = the client LTS under the deterministic scenario schedule; there is no separate spec:
 the monitors of the property are evaluated by the harness and must all answer `ok`). -/
@@ -114,6 +115,11 @@ def step (s : St) (args : List String) : St × String × String :=
   match args with
   | ["ret"] => (s, s.ret, s.ret)
   | ["mon"] => (s, s.mon, s.mon)
+  | ["new", "gf", outs, sched] =>
+      -- `client.NewImpl` = getFirst over several client types (Model/ClientFirst.lean, Driver/GF.lean)
+      match Driver.GF.run outs sched with
+      | some (t, r) => ({ ret := r, mon := "ok" }, t, t)
+      | none => ({}, "bad-scenario", "bad-scenario")
   | _ =>
     -- a leading `f` on the injection: the transport's Impl.Close reports an error (while it does close the
     -- stream).  BaseClient.Close marks the client closed first and hands that error on, so everything is
